@@ -95,6 +95,11 @@ var endsWithPercentEncodingPrefixPattern = regexp.MustCompile(
 // or control characters.
 var containsWhitespaceOrControlPattern = regexp.MustCompile(`[[:space:]]|[[:cntrl:]]`)
 
+// unterminatedNumericCharRefPattern matches a decimal or hexadecimal HTML character reference
+// that is not terminated by ';'.
+var unterminatedNumericCharRefPattern = regexp.MustCompile(
+	`&#(?:[0-9]+(?:[^0-9;]|$)|[xX][[:xdigit:]]+(?:[^[:xdigit:];]|$))`)
+
 // decodeURLPrefix returns the given prefix after it has been HTML-unescaped.
 // It returns an error if the prefix:
 //   - ends in an incomplete HTML character reference before HTML-unescaping,
@@ -112,6 +117,12 @@ func decodeURLPrefix(prefix string) (string, error) {
 	// such as in "javascript&NewLine;".
 	if containsWhitespaceOrControlPattern.MatchString(decoded) {
 		return "", fmt.Errorf("URL prefix %q contains whitespace or control characters", prefix)
+	}
+	if unterminatedNumericCharRefPattern.MatchString(prefix) {
+		// html.UnescapeString and browsers disagree on some numeric character references that lack
+		// the terminating ';' (e.g. "java&#9script:" is left alone by the former and read as
+		// "java\tscript:", i.e. "javascript:", by the latter).
+		return "", fmt.Errorf("URL prefix %q contains a numeric character reference without a terminating ';'", prefix)
 	}
 	if endsWithPercentEncodingPrefixPattern.MatchString(decoded) {
 		return "", fmt.Errorf("URL prefix %q ends with an incomplete percent-encoding character triplet", prefix)
